@@ -22,8 +22,14 @@ int main(void)
       DelMatrix(&a);
     }
     else if(!strcmp(op, "lse")){
-      matrix *ab = rd_matrix(); dvector *s; initDVector(&s);
+      matrix *ab = rd_matrix(); dvector *s, *s2, *s3; size_t q; initDVector(&s);
       SolveLSE(ab, s); pr_dvector("solution", s);
+      /* the same system with a solution vector that already holds numbers (right size / wrong size) */
+      NewDVector(&s2, ab->row); for(q = 0; q < s2->size; q++) s2->data[q] = 7.5*(double)(q+1) - 3.25;
+      SolveLSE(ab, s2); pr_dvector("solution_reused", s2);
+      NewDVector(&s3, ab->row+2); for(q = 0; q < s3->size; q++) s3->data[q] = -11.0 + (double)q;
+      SolveLSE(ab, s3); pr_dvector("solution_resized", s3);
+      DelDVector(&s3); DelDVector(&s2);
       DelDVector(&s); DelMatrix(&ab);
     }
     else if(!strcmp(op, "ols")){
